@@ -701,6 +701,9 @@ def run(ck, prog, ctx):
 
     # ---- accessors: a method named after a field returns that field, not a sibling of the same type
     ck.rule("GETTER", "an accessor `f()` / `f_mut()` of a struct with a field `f` (or its documented alias) derives its result from that field (DESIGN 3.9)")
+    from props.shared import check_exact_conversion
+    check_exact_conversion(ck, "GUARD", prog, "stats::f64_from_u64", "the counts k, n, K, N")
+    check_exact_conversion(ck, "GUARD", prog, "stats::f64_from_usize", "the series index / factorial argument")
     from engines import check_getters
     check_getters(ck, "GETTER", prog, r"^src/stats\.rs$", floor=2)
 
@@ -708,3 +711,11 @@ def run(ck, prog, ctx):
     ck.rule("CTOR", "in a struct literal, the field `f` of a function with a parameter `f` derives from that parameter (DESIGN 3.9)")
     from engines import check_ctors
     check_ctors(ck, "CTOR", prog, r"^src/stats\.rs$|^src/stats/hypergeom/", floor=8)
+    # container methods of the wrapper types answer with the same-named method of one inner collection
+    ck.rule("WRAPPER", "len / is_empty / contains / get / iter / push ... of a wrapper type delegate to the same-named method of ONE inner collection, un-negated (DESIGN 3.9)")
+    from engines import check_wrappers
+    check_wrappers(ck, "WRAPPER", prog, r"^src/stats\.rs$", floor=1)
+    # iterators that turn one inner item into one item of their own never answer None while the inner iterator still has items
+    ck.rule("MAPITER", "a hand-written mapping iterator returns None only on the inner iterator's exhaustion (no early end on a failed lookup)")
+    from engines import check_mapping_iterators
+    check_mapping_iterators(ck, "MAPITER", prog, r"^src/stats\.rs$", floor=2)
